@@ -313,6 +313,12 @@ func init() {
 			c.PreferBias = pick(t, "cfg-prefer3", 600, 200, 900)
 			c.CrashRate = pick(t, "cfg-crash3", 0, 0, 10)
 			c.Padding = t.Choose("cfg-padding", 4) == 3
+			if t.Choose("cfg-storefail3", 3) == 2 {
+				// uploads that fail and are retried: name, metadata and
+				// content of what finally arrives still belong together
+				c.Faults = FaultCfg{Active: true, StoreErr: 150, MaxLatency: time.Second}
+				c.RetryCnt = 6
+			}
 			return c
 		},
 		Mons: func(f *Fleet) []Monitor { return []Monitor{&MonC06{}} },
